@@ -34,6 +34,9 @@ func init() { register("node", nodeMain) }
 
 var nodeFamilyStart = time.Date(2022, 3, 1, 11, 0, 0, 0, time.UTC).UnixMilli()
 
+// the write window of the database (option strings); empty = 0: nothing is writable any more for the 2022 family
+var nodeAhead, nodeBehind string
+
 // gatedFamily lets the driver run steps of OTHER goroutines of a node (the flush job) inside one round of
 // the local replicator: before family.WriteRows (after ValidateSequence) and after it (before the deferred
 // CommitSequence).  Everything else is the real family.
@@ -80,7 +83,7 @@ func openNode(dir string) (*node, error) {
 	db, ok := n.engine.GetDatabase("db")
 	if !ok {
 		opt := &option.DatabaseOption{Intervals: option.Intervals{{Interval: timeutil.Interval(10 * 1000),
-			Retention: timeutil.Interval(36500 * 24 * 3600 * 1000)}}, AutoCreateNS: true}
+			Retention: timeutil.Interval(36500 * 24 * 3600 * 1000)}}, AutoCreateNS: true, Ahead: nodeAhead, Behind: nodeBehind}
 		if err := n.engine.CreateShards("db", opt, models.ShardID(1)); err != nil {
 			return nil, err
 		}
@@ -491,7 +494,7 @@ func (r *nodeRun) final(w *kvwrap.World) {
 	r.rec.Emit("Final", trace.F{"entries": entries})
 }
 
-func nodeHistory(rec *trace.Recorder, dir string, rng *rand.Rand, h int, image bool, sum *trace.Summary, nimages *int) {
+func nodeHistory(rec *trace.Recorder, dir string, rng *rand.Rand, h int, image, late bool, sum *trace.Summary, nimages *int) {
 	w := kvwrap.NewWorld(filepath.Join(dir, "data"), rec)
 	w.Silent = true
 	defer w.Drop()
@@ -501,7 +504,7 @@ func nodeHistory(rec *trace.Recorder, dir string, rng *rand.Rand, h int, image b
 		return
 	}
 	run := &nodeRun{rec: rec, n: n, image: image, imgDir: dir + "-img"}
-	rec.Reset(trace.F{"mode": "node", "h": h})
+	rec.Reset(trace.F{"mode": map[bool]string{false: "node", true: "node-late"}[late], "h": h})
 	rec.Tap = func(b []byte) { run.lines = append(run.lines, append([]byte{}, b...)) }
 	rec.Emit("Proj", n.proj(nil))
 	steps := 10 + rng.Intn(10)
@@ -511,6 +514,11 @@ func nodeHistory(rec *trace.Recorder, dir string, rng *rand.Rand, h int, image b
 	var forced []int
 	if h == 0 {
 		forced = []int{0, 0, 40, 40, 97, 0, 40, 97, 70, 97}
+		steps = len(forced)
+	}
+	if late {
+		// ... the WAL GC task looks at the log, late data arrives, is replicated and flushed, the task looks again
+		forced = []int{0, 0, 40, 40, 70, 97, 0, 40, 0, 40, 70, 97}
 		steps = len(forced)
 	}
 	for i := 0; i < steps; i++ {
@@ -558,7 +566,7 @@ func nodeHistory(rec *trace.Recorder, dir string, rng *rand.Rand, h int, image b
 					}
 				}
 			}
-			racing := rng.Intn(2) == 0
+			racing := rng.Intn(2) == 0 && !(h == 0 || h >= 1000)
 			run.metaFlush()
 			if racing {
 				race()
@@ -587,6 +595,27 @@ func nodeHistory(rec *trace.Recorder, dir string, rng *rand.Rand, h int, image b
 			rec.Emit("ProjData", n.projData())
 			run.snapshot("after-destroy")
 			i = steps
+			if late {
+				// late data for the expired family (accepted when the database option `behind` is larger than
+				// `ahead` + 15 minutes): the WAL manager creates a new log for (shard, family, leader) and the write
+				// goes through it; the entry must be applied and survive like any other acknowledged write
+				var err error
+				if n.log, err = queue.NewFanOutQueue(filepath.Join(n.dir, "wal"), 0); err != nil {
+					sum.Unresolved = append(sum.Unresolved, "recreate log: "+err.Error())
+					break
+				}
+				n.gate = &gatedFamily{DataFamily: n.family}
+				n.part = replica.NewPartition(context.Background(), n.shard, n.gate, 1, n.log, nil, fakeStateMgr{})
+				if err := n.part.BuildReplicaForLeader(1, []models.NodeID{1}); err != nil {
+					sum.Unresolved = append(sum.Unresolved, "recreate partition: "+err.Error())
+					break
+				}
+				n.destroyed, n.freshLog = false, true
+				rec.Emit("LogRecreate", trace.F{})
+				late = false
+				forced = []int{0, 40, 0, 40, 70}
+				i, steps = -1, len(forced)
+			}
 		default:
 			run.step("SyncGC", trace.F{}, func() {
 				n.log.Sync()
@@ -681,6 +710,7 @@ func nodeMain(args []string) int {
 	seed := fs.Int64("seed", 1, "seed")
 	nh := fs.Int("histories", 10, "histories")
 	ni := fs.Int("images", 5, "histories whose every step (and the commit/ack gap) is imaged and recovered")
+	nl := fs.Int("late", 0, "histories with a late write after the log of the expired family was destroyed")
 	scratch := fs.String("scratch", "", "scratch directory")
 	_ = fs.Parse(args)
 	if *scratch == "" {
@@ -699,7 +729,20 @@ func nodeMain(args []string) int {
 	nimages := 0
 	for h := 0; h < *nh; h++ {
 		d := filepath.Join(*scratch, fmt.Sprintf("n%d", h))
-		nodeHistory(rec, d, rand.New(rand.NewSource(rng.Int63())), h, h < *ni, sum, &nimages)
+		nodeHistory(rec, d, rand.New(rand.NewSource(rng.Int63())), h, h < *ni, false, sum, &nimages)
+		_ = rec.Flush()
+		os.RemoveAll(d)
+	}
+	if *nl > 0 {
+		// the family of three hours ago: outside `ahead` (1h) + 15 minutes, inside `behind` (1d): late data is accepted
+		oldStart := nodeFamilyStart
+		nodeFamilyStart = (time.Now().Add(-3*time.Hour).UnixMilli() / 3600000) * 3600000
+		nodeAhead, nodeBehind = "1h", "1d"
+		defer func() { nodeFamilyStart, nodeAhead, nodeBehind = oldStart, "", "" }()
+	}
+	for h := 0; h < *nl; h++ {
+		d := filepath.Join(*scratch, fmt.Sprintf("l%d", h))
+		nodeHistory(rec, d, rand.New(rand.NewSource(rng.Int63())), 1000+h, false, true, sum, &nimages)
 		_ = rec.Flush()
 		os.RemoveAll(d)
 	}
